@@ -44,8 +44,12 @@ func freePort() int {
 		// spread by process id as well: several runs of this check may be under way at once
 		// (another tier, a sweep against a scratch copy) with the same shard numbers
 		port := 21000 + (os.Getpid()*131+sh*977+portSeq*17)%24000
+		if !claimPort(port) {
+			continue
+		}
 		l, err := net.Listen("tcp", fmt.Sprintf(":%d", port))
 		if err != nil {
+			releasePort(port)
 			continue
 		}
 		l.Close()
@@ -53,6 +57,43 @@ func freePort() int {
 	}
 	return 0
 }
+
+// claimPort / releasePort: between "the port is free" and "our server listens on it" another
+// harness process (another check, another shard) may start its server on the same port; the
+// health probe would then be answered by that server, which disappears when its owner is
+// done. A lock file per port, holding the claimant's process id, keeps the harness processes
+// of this machine apart (a file whose process is gone is stale and taken over).
+func portLockPath(port int) string {
+	return filepath.Join(os.TempDir(), "verif-ports", fmt.Sprint(port))
+}
+
+func claimPort(port int) bool {
+	p := portLockPath(port)
+	os.MkdirAll(filepath.Dir(p), 0777)
+	for attempt := 0; attempt < 2; attempt++ {
+		f, err := os.OpenFile(p, os.O_CREATE|os.O_EXCL|os.O_WRONLY, 0644)
+		if err == nil {
+			fmt.Fprint(f, os.Getpid())
+			f.Close()
+			return true
+		}
+		data, rerr := os.ReadFile(p)
+		if rerr != nil {
+			continue
+		}
+		pid, _ := strconv.Atoi(strings.TrimSpace(string(data)))
+		if pid == os.Getpid() {
+			return false // one of our own servers
+		}
+		if pid > 0 && syscall.Kill(pid, 0) == nil {
+			return false
+		}
+		os.Remove(p) // stale
+	}
+	return false
+}
+
+func releasePort(port int) { os.Remove(portLockPath(port)) }
 
 // startServer launches thruserv with the given flags on a free port and waits for /health.
 func startServer(args ...string) (*server, error) {
@@ -114,6 +155,9 @@ func (s *server) stop() {
 		if s.exited != nil {
 			<-s.exited
 		}
+	}
+	if s.port != 0 {
+		releasePort(s.port)
 	}
 }
 
